@@ -23,7 +23,7 @@ ROOT = os.path.dirname(os.path.dirname(os.path.abspath(__file__)))
 # VERIF_REPO: private override used only for sensitivity experiments (mutated scratch copies of the repository);
 # the registered commands never set it, so they always test /repo's working tree.
 REPO = os.path.realpath(os.environ.get("VERIF_REPO") or "/repo")
-ALT = bool(os.environ.get("VERIF_REPO"))
+ALT = bool(os.environ.get("VERIF_REPO")) or bool(os.environ.get("VERIF_DEVRUN"))
 LEVEL = "exploration"
 
 
@@ -389,6 +389,8 @@ def main(argv=None):
             if a.only:
                 cmd += ["--only", a.only]
             jobs.append((f"shard{k}", cmd, fr))
+    if a.only:
+        os.environ["VERIF_DEVRUN"] = "1"     # development run: replays/evidence go to .work/
     maxpar = int(os.environ.get("VERIF_JOBS", "16"))
     running, results, queue = [], {}, list(jobs)
     logs = {}
@@ -481,6 +483,22 @@ def main(argv=None):
             print(f"HARNESS-ERROR {prop} [{l}]: {e}", file=sys.stderr)
         return 2
     if violations:
+        best = {}
+        for v in violations:
+            v["replay"] = os.path.relpath(os.path.join(ROOT, v["replay"]), ROOT)    # one spelling per file
+            p = os.path.join(ROOT, v["replay"])
+            size = os.path.getsize(p) if os.path.exists(p) else 1 << 30
+            key = (v.get("search"), v["signature"])
+            if key not in best or size < best[key][0]:
+                best[key] = (size, v)
+        keep = {v["replay"] for _, v in best.values()}
+        for v in violations:
+            if v["replay"] not in keep and "/replay" in "/" + v["replay"] and not a.replay:
+                p = os.path.join(ROOT, v["replay"])
+                # only remove files written by this run (never a committed corpus file that failed again)
+                if os.path.exists(p) and os.path.getmtime(p) >= t0:
+                    os.remove(p)
+        violations = [v for _, v in best.values()]
         seen = set()
         for v in violations:
             if v["replay"] in seen:
